@@ -606,7 +606,7 @@ def rule_arm_globals(ctx, files=("hdf/src/dfan.c",)):
     return n
 
 
-def rule_rewrite_reuses_element(ctx):
+def rule_rewrite_reuses_element(ctx, files=("hdf/src/dfan.c", "hdf/src/mfan.c"), floor=2):
     """REUSEOLD (C11): rewriting an annotation keeps its tag/ref (its identity) but not its storage: DFANIputann and ANIwriteann call
     HDreuse_tagref, which detaches the old data so that the following write allocates an element of the *new* length.  Whether
     that happens may depend only on whether the annotation already exists in the file (the routine's new/existing flag) — not on
@@ -617,7 +617,7 @@ def rule_rewrite_reuses_element(ctx):
     prog = ctx.prog
     n = 0
     for f in prog.lib_funcs():
-        if not f.rel.endswith(("hdf/src/dfan.c", "hdf/src/mfan.c")) or not f.raw.get("ast"):
+        if not f.rel.endswith(files) or not f.raw.get("ast"):
             continue
         if not any(c[1] == "HDreuse_tagref" for _b, _i, _s, c in f.calls()):
             continue
@@ -636,17 +636,22 @@ def rule_rewrite_reuses_element(ctx):
             n += 1
             key = "REUSEOLD:%s" % f.name
             line = nd[-3] if isinstance(nd[-3], int) else f.line
+            # the expression that contains the call itself: `A && HDreuse_tagref(..) == FAIL` makes the call conditional on A
+            own = nd[1]
+            others = [c[1] for c in calls_in(own, True) if c[1] != "HDreuse_tagref"]
+            has_and = any(y[0] == "bin" and y[1] == "&&" for y in walk(own, True))
+            if others and has_and:
+                ctx.violated("REUSEOLD", key, f.where(line), "the release of the old element is made conditional on `%s` inside its own test: an existing element can be overwritten in place and keep its old length" % render(own)[:80])
+                continue
             if not guards:
                 ctx.holds("REUSEOLD", key, f.where(line), "HDreuse_tagref is called unconditionally", nontrivial=True)
                 continue
-            g = guards[-1]
-            vars_ = {x[1] for x in walk(g[1], True) if x[0] == "var"}
-            calls = [c[1] for c in calls_in(g[1], True)]
-            if len(vars_) == 1 and not calls and len(guards) == 1:
-                ctx.holds("REUSEOLD", key, f.where(line), "whether the old element is released depends only on `%s`" % next(iter(vars_)), nontrivial=True)
+            badg = [g for g in guards if [c[1] for c in calls_in(g[1], True)] or len({x[1] for x in walk(g[1], True) if x[0] == "var"}) != 1]
+            if not badg:
+                ctx.holds("REUSEOLD", key, f.where(line), "whether the old element is released depends only on the flag test(s) `%s`" % "`, `".join(render(g[1])[:30] for g in guards), nontrivial=True)
             else:
-                ctx.violated("REUSEOLD", key, f.where(line), "the release of the old element is conditioned on `%s`: an existing annotation can be overwritten in place and keep its old length" % render(g[1])[:80])
-    ctx.floor("REUSEOLD", 2, n, "(routines that replace an existing annotation)")
+                ctx.violated("REUSEOLD", key, f.where(line), "the release of the old element is conditioned on `%s`: an existing element can be overwritten in place and keep its old length" % render(badg[-1][1])[:80])
+    ctx.floor("REUSEOLD", floor, n, "(routines that replace an existing element under its tag/ref)")
     return n
 
 
